@@ -126,7 +126,16 @@ def get_class(ctx: Ctx, c: dict) -> type:
         cls = ns[name]
     elif kind == 3:
         base = TY_BUILTIN[c["base"]]
-        cls = type(name, (base,), {})
+        ns3: Dict[str, Any] = {}
+        if base is dict and cid % 2 == 0:
+            # every other dict subclass behaves like `collections.defaultdict(int)`: `d[k]` on an absent key inserts a
+            # default and answers it (`k in d`, `.get`, iteration do not).  Looking a key up with `d[k]` instead of
+            # testing `k in d` first then sees a key that is not there - and edits the caller's dict.
+            def __missing__(self: Any, k: Any) -> Any:
+                self[k] = 0
+                return 0
+            ns3["__missing__"] = __missing__
+        cls = type(name, (base,), ns3)
     else:
         if c["slots"]:
             cls = type(name, (), {"__slots__": ()})
